@@ -149,6 +149,7 @@ type Exec struct {
 	closureInfo map[*ast.FuncLit]*types.Info
 	callSites   []token.Pos
 	directAssigned map[*types.Var]bool
+	heapInit       map[string]string // field key -> the array constant that stands for the heap at function entry
 }
 
 const maxPaths = 4000
@@ -532,6 +533,10 @@ func (e *Exec) heapArr(st *State, key string, ft types.Type) string {
 	}
 	name := "H0_" + strings.ReplaceAll(key, ".", "_")
 	e.global(name, fmt.Sprintf("(declare-const %s (Array Int %s))", name, sortOf(ft)))
+	if e.heapInit == nil {
+		e.heapInit = map[string]string{}
+	}
+	e.heapInit[key] = name
 	st.heap[key] = name
 	if st.heap0 != nil {
 		if _, ok := st.heap0[key]; !ok {
